@@ -183,7 +183,7 @@ func genOnce(prog *Program, fn *ssa.Function, ct *FuncContract, seed []string, s
 }
 
 func newCtxOpts(prog *Program, math bool) *Ctx {
-	c := &Ctx{declared: map[string]bool{}, classes: map[string]Sort{}, dtDone: map[string]bool{}, tpSorts: map[string]bool{}, notes: map[string]bool{}, tagOf: map[string]int{}, prog: prog, mathInts: math}
+	c := &Ctx{declared: map[string]bool{}, classes: map[string]Sort{}, dtDone: map[string]bool{}, tpSorts: map[string]bool{}, notes: map[string]bool{}, tagOf: map[string]int{}, structFull: map[string]string{}, prog: prog, mathInts: math}
 	c.qual = func(p *types.Package) string {
 		if p == nil {
 			return ""
